@@ -101,8 +101,12 @@ WIDE_KINDS = ["crlf", "cr", "cr_nl_mix", "nul", "tabcont", "only_nl", "two_nl", 
 def gen_bytes_wide(rng, kind=None):
     """gen_bytes, plus: CR / CRLF (bytes.splitlines boundaries), NUL, a TAB- or SP-started continuation line, lone
     separators, the other 'line boundary' code points of str.splitlines, header look-alikes, more than 100 lines, ~1 kB"""
-    if kind is None and rng.random() < 0.55:
-        return gen_bytes(rng)
+    if kind is None:
+        r = rng.random()
+        if r < 0.12:          # a literal harvested from the code under test, spliced into an ordinary value
+            return splice_token(rng, gen_bytes(rng))
+        if r < 0.6:
+            return gen_bytes(rng)
     kind = kind or rng.choice(WIDE_KINDS)
     if kind in ("kb", "manylines") and rng.random() < 0.75:      # the two big shapes: rarer
         kind = rng.choice(WIDE_KINDS[:14])
@@ -150,7 +154,14 @@ def gen_fullname_wide(rng):
 
 def gen_date_wide(rng):
     """gen_date, plus digit-count boundaries of seconds / microseconds and more offset-byte shapes"""
-    if rng.random() < 0.6:
+    r0 = rng.random()
+    if r0 < 0.05:     # constants of the code under test and their neighbours, as seconds / microseconds
+        ints = source_ints()
+        secs = [v for v in ints if TS_MIN <= v <= TS_MAX]
+        us = [v for v in ints if 0 <= v < 10 ** 6]
+        d = gen_date(rng)
+        return [rng.choice(secs), rng.choice(us) if rng.random() < 0.5 else d[1], d[2]]
+    if r0 < 0.6:
         return gen_date(rng)
     s = rng.choice([TS_MIN + 1, TS_MAX - 1, 2 ** 31 - 1, 2 ** 31, 2 ** 32, 2 ** 33, -2 ** 31, 10 ** 9, 999999999, 9, 10, -9, -10, 99, 100,
                     -62135510961, 253402297199, 0])
@@ -244,3 +255,99 @@ def mk_person_from_fullname(fullname_hex):
     """the person as Person.from_fullname guesses it (fullname kept verbatim, name / email derived)"""
     from swh.model.model import Person
     return None if fullname_hex is None else Person.from_fullname(bytes.fromhex(fullname_hex))
+
+
+# ---------------------------------------------------------------- dictionary of literals harvested from the code under test
+_SOURCE_TOKENS = {}
+
+
+def source_tokens(kind="bytes"):
+    """string / bytes constants (2..40 long) that occur in the source of swh/model/*.py of the repository UNDER TEST, plus a few
+    well-known neighbours; generators splice them into names, messages, origins ... so that a special case keyed on a literal
+    (a prefix that is stripped, a value that is refused) is exercised even when the literal is new (the fuzzers' dictionary trick).
+    Sorted, hence deterministic for a given tree."""
+    if kind in _SOURCE_TOKENS:
+        return _SOURCE_TOKENS[kind]
+    import ast
+    import glob
+    import os
+    from . import core
+    found = set()
+    for f in sorted(glob.glob(os.path.join(core.REPO, "swh", "model", "*.py"))):
+        try:
+            tree = ast.parse(open(f, encoding="utf-8").read())
+        except Exception:
+            continue
+        docs = set()
+        for n in ast.walk(tree):
+            if isinstance(n, (ast.FunctionDef, ast.ClassDef, ast.Module, ast.AsyncFunctionDef)):
+                d = ast.get_docstring(n, clean=False)
+                if d:
+                    docs.add(d)
+        for n in ast.walk(tree):
+            if isinstance(n, ast.Constant) and isinstance(n.value, (str, bytes)) and n.value not in docs:
+                v = n.value.encode("utf-8", "surrogateescape") if isinstance(n.value, str) else n.value
+                if 2 <= len(v) <= 20 and b"\n" not in v and b"%" not in v and b"{" not in v:
+                    found.add(v)
+    extra = [b"refs/tags/", b"refs/heads/", b"refs/", b"HEAD", b"tags/", b"v1.0", b"swh:", b"swh:1:", b"git", b"tag ", b"object ",
+             b"tree ", b"parent ", b"author ", b"committer ", b"tagger ", b"gpgsig", b"-----BEGIN PGP SIGNATURE-----", b"https://",
+             b"http://", b"file://", b"git+ssh://", b"origin", b"master", b"main", b".git", b"None", b"null", b"true", b"0", b"-0000"]
+    toks = sorted(found | set(extra))
+    _SOURCE_TOKENS["bytes"] = toks
+    _SOURCE_TOKENS["str"] = sorted({t.decode("utf-8", "replace") for t in toks})
+    return _SOURCE_TOKENS[kind]
+
+
+def splice_token(rng, value, kind="bytes"):
+    """value with a harvested literal as prefix / suffix / infix / whole (same type as value)"""
+    toks = source_tokens(kind)
+    t = rng.choice(toks)
+    r = rng.random()
+    if r < 0.45:
+        return t + value
+    if r < 0.6:
+        return value + t
+    if r < 0.75:
+        k = rng.randrange(len(value) + 1)
+        return value[:k] + t + value[k:]
+    if r < 0.9:
+        return t
+    return t + (b"/" if kind == "bytes" else "/") + value + t
+
+
+def source_ints():
+    """integer constants that occur in the source of swh/model/*.py of the repository UNDER TEST (thresholds, masks, limits),
+    each with its neighbours -1 / +1: numeric generators draw from them so that a boundary a change introduces is exercised.
+    Evaluates constant expressions such as 2**16 or 10**6 - 1 when they are literal."""
+    if "ints" in _SOURCE_TOKENS:
+        return _SOURCE_TOKENS["ints"]
+    import ast
+    import glob
+    import os
+    from . import core
+    found = set()
+
+    def ev(n):
+        if isinstance(n, ast.Constant) and type(n.value) is int:
+            return n.value
+        if isinstance(n, ast.UnaryOp) and isinstance(n.op, ast.USub):
+            v = ev(n.operand)
+            return None if v is None else -v
+        if isinstance(n, ast.BinOp) and isinstance(n.op, (ast.Pow, ast.Mult, ast.Add, ast.Sub, ast.LShift)):
+            a, b = ev(n.left), ev(n.right)
+            if a is None or b is None or (isinstance(n.op, (ast.Pow, ast.LShift)) and not 0 <= b <= 80) or abs(a) > 10 ** 30:
+                return None
+            return {ast.Pow: lambda: a ** b, ast.Mult: lambda: a * b, ast.Add: lambda: a + b, ast.Sub: lambda: a - b,
+                    ast.LShift: lambda: a << b}[type(n.op)]()
+        return None
+    for f in sorted(glob.glob(os.path.join(core.REPO, "swh", "model", "*.py"))):
+        try:
+            tree = ast.parse(open(f, encoding="utf-8").read())
+        except Exception:
+            continue
+        for n in ast.walk(tree):
+            v = ev(n)
+            if v is not None and abs(v) < 10 ** 30:
+                found.update({v - 1, v, v + 1})
+    _SOURCE_TOKENS["ints"] = sorted(found)
+    return _SOURCE_TOKENS["ints"]
